@@ -299,7 +299,7 @@ func tsigBuffer(msgbuf []byte, rr *TSIG, requestMAC string, timersOnly bool) ([]
 	} else {
 		tsig := new(tsigWireFmt)
 		tsig.Name = CanonicalName(rr.Hdr.Name)
-		tsig.Class = ClassANY
+		tsig.Class = rr.Hdr.Class // ClassANY in a well-formed TSIG; digest what is on the wire
 		tsig.Ttl = rr.Hdr.Ttl
 		tsig.Algorithm = CanonicalName(rr.Algorithm)
 		tsig.TimeSigned = rr.TimeSigned
